@@ -79,6 +79,10 @@ def facts_step(check, ctx):
         os.replace(tmp, GEN_LEAN)
 
     sites = facts["sites"]
+    for st in sites:   # a site the extractor could not analyse has null lists
+        for k in ("events", "closure_params", "call_args", "declared_inside", "captured", "callee_writes", "loop_vars"):
+            if st.get(k) is None:
+                st[k] = []
     by_kind = {}
     for s in sites:
         by_kind[s["kind"]] = by_kind.get(s["kind"], 0) + 1
